@@ -29,11 +29,17 @@ fn oracle() -> Oracle {
         let Some(call) = o.calls_after.get(k + 1).and_then(|n| o.log.get(n - 1)) else { return None };
         let Some(answer) = &call.answer else { return None };
         let outs: Vec<&Sig> = seen.case.sigs.iter().filter(|s| s.is_out()).collect();
-        if row.outputs.len() != outs.len() {
+        // a row must not be returned where the reference has an error item (a virtual signal that
+        // cannot be evaluated over this call's answer)
+        if matches!(seen.reference.items.get(k), Some(RefItem::VirtErr(_))) {
+            return fail(format!("item kind: item {k} is returned as a row although a declared signal cannot be evaluated over the answer of this call {:?}", answer));
+        }
+        let nvirt = row.outputs.iter().filter(|e| e.is_virtual).count();
+        if row.outputs.len() != outs.len() + nvirt {
             return fail(format!("outputs length: row {k} has {} output entries for {} output-capable signals", row.outputs.len(), outs.len()));
         }
         let mut failing = vec![];
-        for (j, (e, s)) in row.outputs.iter().zip(&outs).enumerate() {
+        for (j, (e, s)) in row.outputs.iter().filter(|e| !e.is_virtual).zip(&outs).enumerate() {
             if e.name != s.name {
                 return fail(format!("outputs order: row {k} entry {j} is for {}, expected {} (signal-list order)", e.name, s.name));
             }
@@ -69,7 +75,7 @@ fn oracle() -> Oracle {
                 (V::Num(_), _) => "number_vs_Z_or_X",
             });
         }
-        let got: Vec<String> = row.outputs.iter().filter(|e| e.failing).map(|e| e.name.clone()).collect();
+        let got: Vec<String> = row.outputs.iter().filter(|e| e.failing && !e.is_virtual).map(|e| e.name.clone()).collect();
         if got != failing {
             return fail(format!("failing_outputs(): row {k} lists {got:?}, the entries that do not pass are {failing:?}"));
         }
@@ -150,6 +156,30 @@ pub fn run(tier: Tier, seed: u64) -> i32 {
             }
         }
         cases.push(Case::new(&format!("variables named like outputs ({wrap})"), p2, sigs, true, menu.clone(), menu, 12));
+    }
+    // a declared signal that cannot be evaluated for some answers; the caller carries on: every
+    // row that IS returned still reports what the driver returned in the call made for it
+    {
+        let sigs = vec![Sig::inp("A", 1, 0), outs[0].clone(), outs[1].clone()];
+        let p4 = Program {
+            header: vec!["A".into(), "Q".into(), "R".into()],
+            body: {
+                let mut b = vec![Stmt::Declare("V".into(), bin(BinOp::Div, lit(8), name("Q")))];
+                b.extend((0..4).map(|j| Stmt::Row(vec![Entry::Lit(j % 2, Radix::Dec), exp(j as usize), exp(j as usize + 3)])));
+                b
+            },
+        };
+        let mut menu = vec![];
+        for a in [V::Num(0), V::Num(1), V::Num(2), V::Z, V::X] {
+            for b in [V::Num(5), V::Z] {
+                menu.push(MenuItem::ans(vec![("Q".into(), a), ("R".into(), b)]));
+            }
+        }
+        for ov in [true, false] {
+            let mut c = Case::new("a virtual signal that fails for some answers, caller carries on", p4.clone(), sigs.clone(), ov, menu.clone(), menu.clone(), 8);
+            c.continue_after_call_errors = true;
+            cases.push(c);
+        }
     }
     // a bidirectional D next to an output that is literally called D_out
     {
